@@ -128,21 +128,37 @@ def run(repo, seed, tier):
             evaluations += 1
             desc = repr({'sys_path': explicit, 'added_sys_path': added, 'smart_sys_path': smart,
                          'load_unsafe_extensions': unsafe, 'environment_path': ep})
-            for pth in (proj, Path(proj)):
-                p = Project(pth, sys_path=explicit, added_sys_path=added, smart_sys_path=smart,
-                            load_unsafe_extensions=unsafe, environment_path=ep)
+            # the project directory is spelled in every way a caller may spell it: absolute / relative to the current
+            # directory (plain and with a leading './'), as str and as Path - for the constructor and for load()
+            rel = os.path.relpath(proj, top)
+            spellings = (proj, Path(proj), rel, Path(rel), os.path.join('.', rel))
+            for pth in (proj, Path(proj), rel):
+                cwd = os.getcwd()
+                os.chdir(top)
                 try:
-                    p.save()
-                    q = Project.load(pth)
-                except Exception as e:
-                    violations.append({'label': 'save()/load() raised', 'input': desc, 'observed': repr(e)})
-                    continue
-                a = (str(p.path), p.sys_path, p.added_sys_path, p.smart_sys_path, p.load_unsafe_extensions, p._environment_path)
-                b = (str(q.path), q.sys_path, q.added_sys_path, q.smart_sys_path, q.load_unsafe_extensions, q._environment_path)
-                if a != b:
-                    violations.append({'label': 'save() then load() does not give the same path and settings',
-                                       'input': desc, 'observed': 'saved %r loaded %r' % (a, b)})
-                shutil.rmtree(os.path.join(proj, '.jedi'), ignore_errors=True)
+                    p = Project(pth, sys_path=explicit, added_sys_path=added, smart_sys_path=smart,
+                                load_unsafe_extensions=unsafe, environment_path=ep)
+                    try:
+                        p.save()
+                        loaded = [(sp, Project.load(sp)) for sp in spellings]
+                    except Exception as e:
+                        violations.append({'label': 'save()/load() raised', 'input': desc, 'observed': repr(e)})
+                        continue
+                    a = (os.path.abspath(str(p.path)), str(p.path), p.sys_path, p.added_sys_path, p.smart_sys_path,
+                         p.load_unsafe_extensions, p._environment_path)
+                    if a[0] != a[1] or a[0] != proj:
+                        violations.append({'label': 'Project.path is not the absolute project directory',
+                                           'input': desc + ' constructed with %r' % (pth,), 'observed': repr(a[:2])})
+                    for sp, q in loaded:
+                        b = (proj, str(q.path), q.sys_path, q.added_sys_path, q.smart_sys_path, q.load_unsafe_extensions,
+                             q._environment_path)
+                        if (proj,) + a[1:] != b:
+                            violations.append({'label': 'save() then load() does not give the same path and settings',
+                                               'input': desc + ' loaded through %r' % (sp,),
+                                               'observed': 'saved %r loaded %r' % (a[1:], b[1:])})
+                finally:
+                    os.chdir(cwd)
+                    shutil.rmtree(os.path.join(proj, '.jedi'), ignore_errors=True)
     finally:
         shutil.rmtree(top, ignore_errors=True)
     counts = {}
@@ -161,5 +177,5 @@ def run(repo, seed, tier):
                     'objects, a non-ASCII directory} x added_sys_path (4) x smart_sys_path x 7 script locations (none, '
                     'project root, inside packages with __init__.py at depth 1-3, plain directories, a sibling '
                     'directory whose name extends the project name, elsewhere); oracle = the documented order, and '
-                    'three imports each reachable through exactly one candidate entry; plus 144 save/load round trips',
+                    'three imports each reachable through exactly one candidate entry; plus 216 save/load round trips, each loaded through 5 spellings of the project directory (absolute / relative, str / Path)',
             'samples': samples, 'violations': violations[:60], 'violation_counts': counts}
